@@ -280,10 +280,10 @@ def py_alloc_contracts(repo):
                         wr = alias[n.func.id]
                     if wr is None:
                         continue
-                    if n.keywords or any(isinstance(a, ast.Starred) for a in n.args):
-                        raise BrokenTie(f"{f.name}:{qn}: call of {wr} with keyword / starred arguments")
+                    if any(isinstance(a, ast.Starred) for a in n.args) or any(k.arg is None for k in n.keywords):
+                        raise BrokenTie(f"{f.name}:{qn}: call of {wr} with starred arguments")
                     args = []
-                    for a in n.args:
+                    for a in list(n.args) + [k.value for k in n.keywords]:
                         if not allocated_here(a, n.lineno):
                             continue
                         where = where_of(a, n.lineno, set())
